@@ -6,7 +6,7 @@ import p01
 import p04
 from arrlib import nd_spec, rand_array, small_values, dtype_str, MODE_COQ
 from raglib import item_spec, INDEXTYPES
-from common import NUMTYPES, cz, czl_rle, copt, cbool
+from common import ITEMSIZE, NUMTYPES, cz, czl_rle, copt, cbool
 
 META = dict(
     coq_targets=['CheckArray.vo', 'CheckRagged.vo'],
@@ -44,13 +44,23 @@ def gen(ctx):
                               chunklen=r.choice([None, 1, 2, max(sh[0], 1), sh[0] + 1]),
                               metadata=r.choice([None, {'a': {'b': [1, 2.5, None, float('inf')]}, 'ü': 'x', 'lim': float('-inf')}]),
                               mutations=r.sample(muts, 3)))
+    # the requested dtype is the source's own numeric type in the OTHER byte order (values compare equal either
+    # way: only dtype, descriptor and raw bytes tell)
+    for k, nt in enumerate(NUMTYPES):
+        if ITEMSIZE[nt] == 1 or (ctx.quick and k % 2):
+            continue
+        bo = ('little', 'big')[k % 2]
+        other = ('big', 'little')[k % 2]
+        for sh in [(5,), (0, 2), (4, 3)][(k % 3):(k % 3) + 2]:
+            A.append(dict(value=nd_spec(rand_array(r, nt, bo, sh)), dtype=dtype_str(nt, other),
+                          chunklen=[None, 2, 1][k % 3], metadata=None, mutations=[]))
     for _ in range(25 if ctx.quick else 600):
         nt = r.choice(NUMTYPES); bo = r.choice(['little', 'big']); atom = r.choice(p04.ATOMS)
         sublens = r.choice([None, [0], [2, 0, 1], [1], [0, 0], [3, 2, 1, 0, 1, 2, 3]])
-        dt = r.choice([None, None, r.choice(NUMTYPES)])
+        dt = r.choice([None, None, r.choice(NUMTYPES), nt])
         subs = None if sublens is None else [nd_spec(small_values(r, (n,) + tuple(atom), dtype_str(nt, bo))) for n in sublens]
         G.append(dict(dtype0=dtype_str(nt, bo), atom=list(atom), indextype=r.choice(INDEXTYPES), subs=subs,
-                      sublens=sublens, dtype=dtype_str(dt, 'little') if dt else None,
+                      sublens=sublens, dtype=dtype_str(dt, r.choice(['little', 'big'])) if dt else None,
                       metadata=r.choice([None, {'a': 1}, {'a': [1, float('inf')], 'lim': float('-inf')}]), mutations=r.sample(muts[:2] + muts[3:], 2),
                       onto=r.random() < 0.3))
     for kind in ('Array', 'RaggedArray'):
